@@ -130,7 +130,17 @@ impl Run {
     let seed = std::env::var("VERIF_SEED").ok().and_then(|s| s.parse::<i64>().ok()).unwrap_or(0);
     // Panics inside the *subject* are caught by the engines with catch_unwind; keep the default
     // hook quiet so millions of expected panics do not flood stderr.
-    std::panic::set_hook(Box::new(|_| {}));
+    std::panic::set_hook(Box::new(|info| {
+      let loc = info
+        .location()
+        .map(|l| {
+          let f = l.file();
+          let f = f.strip_prefix("/repo/").unwrap_or(f);
+          format!("{}:{}", f, l.line())
+        })
+        .unwrap_or_else(|| "?".to_string());
+      LAST_PANIC_LOC.with(|c| *c.borrow_mut() = loc);
+    }));
     Run {
       id: id.to_string(),
       tier,
@@ -284,4 +294,31 @@ pub fn spaced_samples<T: Clone>(items: &[T], n: usize) -> Vec<T> {
 pub fn machinery_failure(msg: &str) -> ! {
   eprintln!("MACHINERY: {msg}");
   std::process::exit(3);
+}
+
+thread_local! {
+  static LAST_PANIC_LOC: std::cell::RefCell<String> = const { std::cell::RefCell::new(String::new()) };
+}
+
+/// Runs `f` under catch_unwind; on panic returns "<file>:<line>: <message>" of the panic site.
+pub fn guarded<T>(f: impl FnOnce() -> T) -> Result<T, String> {
+  LAST_PANIC_LOC.with(|c| c.borrow_mut().clear());
+  match std::panic::catch_unwind(std::panic::AssertUnwindSafe(f)) {
+    Ok(v) => Ok(v),
+    Err(e) => {
+      let msg = if let Some(s) = e.downcast_ref::<String>() {
+        s.clone()
+      } else if let Some(s) = e.downcast_ref::<&str>() {
+        s.to_string()
+      } else {
+        "non-string panic payload".to_string()
+      };
+      // empty when the panic happened on another (rayon worker) thread
+      let mut loc = LAST_PANIC_LOC.with(|c| c.borrow().clone());
+      if loc.is_empty() {
+        loc = "?".to_string();
+      }
+      Err(format!("{loc}: {msg}"))
+    }
+  }
 }
